@@ -136,8 +136,76 @@ static void check_table(D &d)
 	vf_count("monitor:table-compared", 1);
 	VF_CHECK(d.def() == mdef, "model:default:bookkeeping", "after %s: dispatcher default id %#" PRIxPTR ", model %#" PRIxPTR, cur_op, d.def(), mdef);
 }
+/* dispatch::resize(): slots cut off end their registrations (traits fini), slots added are created by the
+ * traits' init and must be unused */
+static int rawtable, stale_behind;
+static void check_table(D &d);
+static void op_resize(D &d, vf_rng *r, char *one, size_t n)
+{
+	long L = d.length(), to;
+	uint32_t c = vf_below(r, 10);
+	int want = 0;
+	std::vector<reg *> ending;
+	if (c < 4) to = L - 1 - (long) vf_below(r, 3);
+	else if (c < 8) to = L + 1 + (long) vf_below(r, 3);
+	else if (c < 9) to = 0;
+	else to = L;
+	if (to < 0) to = 0;
+	begin_op("dispatch::resize");
+	for (long i = to; i < L; i++) {
+		mpt::command *s = d.get(i);
+		if (s && s->cmd && known(s->arg)) ending.push_back(static_cast<reg *>(s->arg));
+	}
+	for (reg *g : ending) g->fin_allowed = true;
+	vf_fp_u64(0x800); vf_fp_u64((uint64_t) L); vf_fp_u64((uint64_t) to);
+	vf_at("dispatch::resize");
+	vf_count("dispatch::resize", 1);
+	bool ok = d.resize(to);
+	vf_log("resize(%ld) on %ld slots = %d, %zu live registrations in the part cut off", to, L, ok, ending.size());
+	snprintf(one, n, " resize(%ld->%ld)%s", L, to, ok ? "" : "!");
+	VF_CHECK(op_events == 0, "model:emit:unexpected-delivery", "dispatch::resize delivered an event");
+	if (!ok) {
+		vf_count("resize:refused", 1);
+		for (reg *g : ending) if (!g->fin) g->fin_allowed = false;
+		VF_CHECK(op_fins == 0 && d.length() == L, "model:resize:refused-modified", "refused resize(%ld) changed the table (%ld -> %ld slots, %d end-of-life calls)", to, L, (long) d.length(), op_fins);
+		return;
+	}
+	want = (int) ending.size();
+	VF_CHECK(d.length() == to, "model:resize:length", "after resize(%ld) the table has %ld slots", to, (long) d.length());
+	check_fins(want);
+	for (reg *g : ending) model.erase(g->id);
+	if (to < L) { vf_count("resize:shrink", 1); if (want) { vf_count("resize:shrink-ended-registrations", 1); stale_behind = 1; } }
+	for (long i = L; i < to; i++) {
+		mpt::command *s = d.get(i);
+		vf_count("monitor:traits-slot-compared", 1);
+		VF_CHECK(s != 0, "model:resize:length", "slot %ld missing after resize(%ld)", i, to);
+		VF_CHECK(!s->cmd, "model:table:traits-slot-not-empty",
+		         "slot %ld created by resize(%ld -> %ld) holds handler %p with argument %p (id %#" PRIxPTR ")%s", i, L, to, (void *) s->cmd, s->arg, s->id,
+		         known(s->arg) ? ": a registration that already ended" : "");
+	}
+	if (to > L) { vf_count("resize:grow", 1); if (stale_behind) vf_count("resize:grow-over-ended-registrations", 1); stale_behind = 0; }
+}
+static void op_insert(D &d, vf_rng *r, char *one, size_t n)
+{
+	long L = d.length(), pos = (long) vf_below(r, (uint32_t) L + 1);
+	if (vf_chance(r, 1, 4)) pos = 0;
+	begin_op("dispatch::insert");
+	vf_fp_u64(0x900); vf_fp_u64((uint64_t) pos);
+	vf_at("dispatch::insert");
+	vf_count("dispatch::insert", 1);
+	mpt::command *s = d.insert(pos);
+	vf_log("insert(%ld) on %ld slots = %p", pos, L, (void *) s);
+	snprintf(one, n, " insert(%ld)%s", pos, s ? "" : "!");
+	VF_CHECK(op_events == 0 && op_fins == 0, "model:insert:handler-invoked", "dispatch::insert invoked a handler");
+	if (!s) { vf_count("insert:refused", 1); return; }
+	vf_count("monitor:traits-slot-compared", 1);
+	VF_CHECK(d.length() == L + 1, "model:resize:length", "after insert(%ld) the table has %ld slots, had %ld", pos, (long) d.length(), L);
+	VF_CHECK(!s->cmd, "model:table:traits-slot-not-empty", "slot created by insert(%ld) holds handler %p with argument %p (id %#" PRIxPTR ")", pos, (void *) s->cmd, s->arg, s->id);
+	vf_count("insert:accepted", 1);
+	if (stale_behind) vf_count("insert:over-ended-registrations", 1);
+	stale_behind = 0;
+}
 /* dispatch::reserve(): reply id reservation on the dispatcher's own table */
-static int rawtable;
 static void op_reserve(D &d, vf_rng *r, char *one, size_t n, bool first)
 {
 	size_t width = 1 + vf_below(r, 8);
@@ -146,6 +214,7 @@ static void op_reserve(D &d, vf_rng *r, char *one, size_t n, bool first)
 	vf_fp_u64(0x700 + width);
 	vf_at("dispatch::reserve");
 	vf_count("dispatch::reserve", 1);
+	bool nobuf = d.begin() == 0;   /* the reservation creates the table: raw buffer without element traits */
 	mpt::command *c = d.reserve(width);
 	vf_log("reserve(%zu)%s = %p id=%#" PRIxPTR, width, first ? " [first table operation]" : "", (void *) c, c ? c->id : 0);
 	snprintf(one, n, " reserve(%zu)%s%s", width, first ? "[first]" : "", c ? "" : "!");
@@ -160,7 +229,7 @@ static void op_reserve(D &d, vf_rng *r, char *one, size_t n, bool first)
 	c->cmd = (int (*)(void *, void *)) hnd;
 	c->arg = g;
 	model[c->id] = g;
-	if (first) rawtable = 1;
+	if (nobuf) rawtable = 1;
 	vf_count(first ? "reserve:first-table-operation" : "reserve:accepted", 1);
 }
 static void make_plan(vf_rng *r)
@@ -217,7 +286,7 @@ void vf_case(uint64_t, vf_rng *r)
 		}
 		desc = libfb ? "fallback=library:" : "fallback=harness:";
 		vf_fp_u64(libfb);
-		rawtable = 0;
+		rawtable = 0; stale_behind = 0;
 		if (vf_chance(r, 1, 4)) {
 			op_reserve(d, r, one, sizeof(one), true);
 			check_table(d);
@@ -292,6 +361,10 @@ void vf_case(uint64_t, vf_rng *r)
 				fb = g;
 			} else if (c < 60) {
 				op_reserve(d, r, one, sizeof(one), false);
+			} else if (c < 69 && !rawtable) {
+				/* (tables created by a reservation carry no element traits: not resized here) */
+				if (c < 66) op_resize(d, r, one, sizeof(one));
+				else op_insert(d, r, one, sizeof(one));
 			} else if (c < 88) {
 				begin_op("emit");
 				make_plan(r);
